@@ -23,6 +23,10 @@ type walkDstCache struct {
 
 var walkDsts = &walkDstCache{}
 
+// findDsts are CheckFind's own destinations (it reads the values it finds through the W-adv helpers, which take theirs
+// from walkDsts by their own depth count: one caller must not hand the same destination to two live uses).
+var findDsts = &walkDstCache{}
+
 func (d *walkDstCache) obj(depth int) *simdjson.Object {
 	if !d.reuse {
 		return nil
@@ -588,6 +592,7 @@ func DiffInterfaceRoots(roots []*MV, v interface{}) string {
 // absent keys, and FindElement from each root. Returns a description of the first disagreement.
 func CheckFind(pj *simdjson.ParsedJson, roots []*MV) (diff string, err error) {
 	w := newWalkCtx(pj)
+	depth := 0
 	var visit func(it *simdjson.Iter, t simdjson.Type, m *MV, path string) error
 	visit = func(it *simdjson.Iter, t simdjson.Type, m *MV, path string) error {
 		if err := w.tick(); err != nil {
@@ -596,13 +601,18 @@ func CheckFind(pj *simdjson.ParsedJson, roots []*MV) (diff string, err error) {
 		if diff != "" {
 			return nil
 		}
+		depth++
+		defer func() { depth-- }()
 		switch m.K {
 		case KObject:
 			if t != simdjson.TypeObject {
 				diff = fmt.Sprintf("%s: expected object, got %v", path, t)
 				return nil
 			}
-			obj, err := it.Object(nil)
+			// a destination kept per nesting depth (when the run reuses destinations): the same Object value
+			// serves one object after the other, lookups included
+			findDsts.reuse = walkDsts.reuse
+			obj, err := it.Object(findDsts.obj(depth))
 			if err != nil {
 				return err
 			}
@@ -698,7 +708,8 @@ func CheckFind(pj *simdjson.ParsedJson, roots []*MV) (diff string, err error) {
 				return nil
 			}
 			// Descend through Array.Iter/Advance; count mismatches are W-adv's business, not reported here.
-			arr, err := it.Array(nil)
+			findDsts.reuse = walkDsts.reuse
+			arr, err := it.Array(findDsts.arr(depth))
 			if err != nil {
 				return err
 			}
@@ -760,6 +771,120 @@ func CheckFind(pj *simdjson.ParsedJson, roots []*MV) (diff string, err error) {
 	})
 	return
 }
+
+// WalkFindBlind looks names up in every object of a tape without a model (C05/C19: results of arbitrary or damaged
+// input): each object's own last name, names remembered from objects visited before, and an absent one - through one
+// Object destination per nesting depth and one Element destination, the way an allocation-averse caller does.
+// API errors end the branch; only panics (and the step cap) are reported.
+func WalkFindBlind(pj *simdjson.ParsedJson) error {
+	w := newWalkCtx(pj)
+	var el simdjson.Element
+	var recent [][]byte
+	var visit func(it *simdjson.Iter, t simdjson.Type, depth int) error
+	visit = func(it *simdjson.Iter, t simdjson.Type, depth int) error {
+		if err := w.tick(); err != nil {
+			return err
+		}
+		if depth > 2000 {
+			return nil
+		}
+		switch t {
+		case simdjson.TypeObject:
+			dst := blindDsts.obj(depth)
+			obj, err := it.Object(dst)
+			if err != nil {
+				return nil
+			}
+			var names [][]byte
+			scan := *obj
+			var e simdjson.Iter
+			for {
+				if err := w.tick(); err != nil {
+					return err
+				}
+				name, et, err := scan.NextElementBytes(&e)
+				if err != nil || et == simdjson.TypeNone {
+					break
+				}
+				if len(names) < 64 {
+					names = append(names, append([]byte(nil), name...))
+				}
+			}
+			look := [][]byte{[]byte("zz-absent")}
+			if len(names) > 0 {
+				look = append(look, names[len(names)-1], names[len(names)/2])
+			}
+			look = append(look, recent...)
+			for _, k := range look {
+				if r := obj.FindKey(string(k), &el); r != nil && depth < 3 {
+					r.Iter.Interface() // (bounded: converting the subtree at every level of a deep chain is quadratic)
+				}
+				obj.FindPath(&el, string(k))
+			}
+			if len(names) > 0 {
+				recent = append(recent, names[len(names)-1])
+				if len(recent) > 3 {
+					recent = recent[1:]
+				}
+			}
+			children := *obj
+			var ce simdjson.Iter
+			for {
+				_, et, err := children.NextElementBytes(&ce)
+				if err != nil || et == simdjson.TypeNone {
+					break
+				}
+				if et == simdjson.TypeObject || et == simdjson.TypeArray {
+					if err := visit(&ce, et, depth+1); err != nil {
+						return err
+					}
+				}
+			}
+		case simdjson.TypeArray:
+			arr, err := it.Array(blindDsts.arr(depth))
+			if err != nil {
+				return nil
+			}
+			ai := arr.Iter()
+			for {
+				if err := w.tick(); err != nil {
+					return err
+				}
+				et := ai.Advance()
+				if et == simdjson.TypeNone {
+					break
+				}
+				if et == simdjson.TypeObject || et == simdjson.TypeArray {
+					if err := visit(&ai, et, depth+1); err != nil {
+						return err
+					}
+				}
+			}
+		}
+		return nil
+	}
+	return safely(func() error {
+		it := pj.Iter()
+		for {
+			if err := w.tick(); err != nil {
+				return err
+			}
+			if it.Advance() != simdjson.TypeRoot {
+				return nil
+			}
+			rt, inner, err := it.Root(nil)
+			if err != nil {
+				return nil
+			}
+			if err := visit(inner, rt, 0); err != nil {
+				return err
+			}
+		}
+	})
+}
+
+// blindDsts are WalkFindBlind's own per-depth destinations (always reused).
+var blindDsts = &walkDstCache{reuse: true}
 
 // ---- W-marshal ----------------------------------------------------------------------------
 
